@@ -359,8 +359,9 @@ def gen_len(R, info, allow_open=True, exotic=False):
             return ['const', R.choice(names)]
         if good:
             return ['const', R.choice(good)]
-    if exotic and c == 3:
-        v = R.choice([2 ** 31 - 1, 2 ** 31, 2 ** 32, 2 ** 62, 2 ** 63 - 1, 2 ** 63, 2 ** 64 - 1, 2 ** 64, 2 ** 70])
+    if exotic and c in (3, 4, 5, 6):
+        v = R.choice([2 ** 31 - 1, 2 ** 31, 2 ** 32, 2 ** 32 + 5, 2 ** 40 + 3, 2 ** 32, 2 ** 33 - 1,
+                      2 ** 62, 2 ** 63 - 1, 2 ** 63, 2 ** 64 - 1, 2 ** 64, 2 ** 70])
     else:
         v = R.choice([0, 1, 2, 3, 4, 5, 7, 8, 9, 10, 12, 16, 17, 63, 64, 100, 255, 256, 1000])
     return ['lit', v, R.choice(['d', 'd', 'd', 'o', 'x', 'X'])]
